@@ -159,8 +159,7 @@ class Axioms:
                 continue
             self.seen[k] = t
             if z3.is_quantifier(t):
-                todo.append(t.body())
-                continue
+                continue    # terms under a binder mention bound variables: not instantiated
             if z3.is_app(t):
                 self.inst(t)
                 todo.extend(t.children())
@@ -174,8 +173,6 @@ class Axioms:
         d = t.decl()
         n = d.name()
         add = self.out.append
-        if z3.is_var(t) or any(_has_var(c) for c in t.children()):
-            return
         if n == "Hd" and d.arity() == 2:
             a, x = t.arg(0), t.arg(1)
             add(Hd_inv(a, t) == x)
